@@ -149,6 +149,19 @@ def run_tlc(module, cfg=None, workers=None, timeout=600, env=None,
     return r
 
 
+def unique(items):
+    """Order-preserving de-duplication of JSON-able values (a CONSTRAINT that
+    prints is evaluated for the initial and for the stuttering state)."""
+    seen = set()
+    out = []
+    for x in items:
+        k = json.dumps(x, sort_keys=True)
+        if k not in seen:
+            seen.add(k)
+            out.append(x)
+    return out
+
+
 def need_ok(r, what):
     """Machinery-level requirement: the TLC run completed without error."""
     if r.error is not None:
